@@ -289,7 +289,7 @@ def wmodel(node, vals, keys=None):
         out = []
         prev = None
         for i, v in enumerate(vals):
-            k = kf(v)
+            k = keys[i] if keys is not None else kf(v)
             if i == 0 or k != prev:
                 if out:
                     out[-1] = (out[-1][0], out[-1][1], i)
@@ -400,7 +400,7 @@ def check_window(node, path, i, in_tap, out_tap, ctx, findings):
         return
     used = 0
     recorded = None
-    if op == 'group_by' and node.get('key') == 'rr3':
+    if (op == 'group_by' and node.get('key') == 'rr3') or (op == 'split' and node.get('key') == 'cnt3'):
         # impure key mapper: its recorded answers, one per item in arrival order (a mapper asked twice for one item, or
         # not at all, shows up as a different number of answers than items)
         calls = ctx.extra.get('keycalls', {}).get('%s/%d' % (path, i), [])
